@@ -40,6 +40,16 @@ theorem loud_ok {names : List String} : Loud names .ok := Or.inl rfl
 theorem loud_raise {names : List String} {s : String} (h : s ∈ names) : Loud names (.raise s) :=
   Or.inr ⟨s, h, rfl⟩
 
+/-- two candidate exception classes, one of them unreachable -/
+theorem ok_or_raise_of_loud {o : EPV.Out} {s t : String} (h1 : Loud [s, t] o) (h2 : o ≠ .raise t) :
+    o = .ok ∨ o = .raise s := by
+  rcases h1 with h | ⟨u, hu, h⟩
+  · exact Or.inl h
+  · simp only [List.mem_cons, List.mem_nil_iff, or_false] at hu
+    rcases hu with rfl | rfl
+    · exact Or.inr h
+    · exact absurd h h2
+
 end EPV.Rest
 
 /-- `outcome p = ok` as a propositional formula in the (still folded) path conditions `c_i p` -/
@@ -56,3 +66,12 @@ macro "rest_ok_or_raise" : tactic =>
 macro "rest_loud" : tactic =>
   `(tactic| (simp only [epv_tree]
              repeat' (first | exact EPV.Rest.loud_ok | exact EPV.Rest.loud_raise (by decide) | apply EPV.Rest.loud_ite)))
+
+/-- the exception named in the goal `outcome p ≠ raise s` sits on leaves whose path conditions contradict each other
+(linear arithmetic on the unfolded conditions) -/
+macro "rest_unreachable" : tactic =>
+  `(tactic| (intro h
+             simp only [epv_tree, EPV.Rest.ite_eq_raise_iff, EPV.Rest.ok_eq_raise, EPV.Out.raise.injEq, String.reduceEq,
+               and_false, false_and, or_false, false_or, and_true, true_and] at h
+             simp only [epv_cond, not_le, not_lt] at h
+             casesm* _ ∨ _, _ ∧ _ <;> linarith))
